@@ -749,14 +749,16 @@ func (e *Engine) reeval(st *State, fr *Frame, v ssa.Value, depth int) Val {
 			return Val{bigGet(st, a[0])}
 		}
 		if callee, ok := x.Call.Value.(*ssa.Function); ok && len(callee.Blocks) > 0 && callee.Signature.Results().Len() == 1 &&
-			strings.HasSuffix(e.W.Fset.Position(callee.Pos()).Filename, "zz_verif_gen.go") && !e.isUninterp(callee) &&
-			len(leavesOf(callee.Signature.Results().At(0).Type())) == 1 {
+			strings.HasSuffix(e.W.Fset.Position(callee.Pos()).Filename, "zz_verif_gen.go") && !e.isUninterp(callee) {
 			// a specification function applied inside old(): evaluate it in the pre-state heap
 			var args []Val
 			for _, a := range x.Call.Args {
 				args = append(args, e.reeval(st, fr, a, depth+1))
 			}
-			return Val{e.evalSpecFn(st, callee, args, nil)}
+			if len(leavesOf(callee.Signature.Results().At(0).Type())) == 1 && leavesOf(callee.Signature.Results().At(0).Type())[0].Sort == SBool {
+				return Val{e.evalSpecFn(st, callee, args, nil)}
+			}
+			return e.evalSpecFnVal(st, callee, args)
 		}
 		if callee, ok := x.Call.Value.(*ssa.Function); ok {
 			if fc := e.W.ByFunc[callee]; fc != nil && fc.Pure {
